@@ -46,6 +46,30 @@ class Cfg:
                     # a branch on a literal constant (`if false { .. }`): the contradicting edge is never taken
                     if any(a[0] == "bool" and a[1][0] == "const" and a[1][1] == "bool" and bool(a[1][3]) != bool(a[2]) for a in atoms):
                         dead.add((blk.i, tgt))
+                    # a match on a constant enum value (a helper shared by both sides, inlined with `Side::Bid` passed in)
+                    for a in atoms:
+                        if a[0] == "variant" and a[1][0] == "agg" and a[1][1] == "adt" and a[2] and a[1][2].split("::")[-1] not in a[2]:
+                            dead.add((blk.i, tgt))
+            self._dead = dead
+            # definitions in blocks that can no longer be reached do not reach anything: tell the evaluator
+            if dead and self.ev is not None:
+                reach = set()
+                st_ = [0]
+                while st_:
+                    b_ = st_.pop()
+                    if b_ in reach:
+                        continue
+                    reach.add(b_)
+                    for s_ in self.body.succs(b_):
+                        if (b_, s_) not in dead:
+                            st_.append(s_)
+                unreachable = {b_.i for b_ in self.body.blocks if b_.i not in reach and not b_.cleanup}
+                if unreachable and getattr(self.ev, "dead_blocks", None) != unreachable:
+                    self.ev.dead_blocks = unreachable
+                    self.ev._memo = {}
+                    self._atoms = {}
+                    self._dead = None
+                    return self.dead_edges()    # once more with the sharper values (converges: the dead set only grows)
             self._dead = dead
         return self._dead
 
@@ -240,9 +264,16 @@ class Cfg:
             return self._guards[b]
         out = []
         edges = self.controlling_edges(b)
+        def trivially_true(a):
+            # a test of a literal constant that holds by construction (the other outcome is a dead edge)
+            if a[0] == "variant" and a[1][0] == "agg" and a[1][1] == "adt" and a[1][2].split("::")[-1] in a[2]:
+                return True
+            return a[0] == "bool" and a[1][0] == "const" and a[1][1] == "bool" and bool(a[1][3]) == bool(a[2])
+        dead = self.dead_edges()
+        edges = [e for e in edges if e not in dead]
         for (s, tgt) in edges:
             for a in self.edge_atoms(s, tgt):
-                if a not in out:
+                if a not in out and not trivially_true(a):
                     out.append(a)
         if self.bypassable(b, edges):
             out.append(("opaque", "reached only on some of the paths its branch conditions allow"))
